@@ -81,8 +81,8 @@ Theorem C09_single_refuted :
 Proof.
   exists (mkNCase 1 [1; 2; 3]
             [(0%nat, [0; 1; 2]%nat); (1%nat, [0; 1; 2]%nat)]
-            [mkNRound [(false, [0; 1]%nat); (false, [0; 1]%nat)] [0; 1]%nat [[0; 1]%nat];
-             mkNRound [(false, [0; 1; 2]%nat); (true, [0; 1; 2]%nat)] [0; 1; 2]%nat [[0; 1; 2]%nat]]
+            [mkNRound [(false, [0; 1]%nat); (false, [0; 1]%nat)] [0; 1]%nat [[0; 1]%nat] [];
+             mkNRound [(false, [0; 1; 2]%nat); (true, [0; 1; 2]%nat)] [0; 1; 2]%nat [[0; 1; 2]%nat] []]
             [(0%nat, [0; 1]%nat); (1%nat, [0; 1; 2]%nat)]
             [(0%nat, [0; 1]%nat); (0%nat, [0; 1; 2]%nat)]
             [(0%nat, [[0; 1]%nat; [0; 1; 2]%nat])]).
